@@ -27,7 +27,7 @@ META = {
 GROUP = "bpe"
 REQ = "From RV Require Import Prelude.\nFrom Bpe Require Import ModelBpe ModelC27.\nOpen Scope N_scope."
 THEOREMS = ["C27_byte_char_bijection", "C27_merge_preserves_concat", "C27_bpe_merge_preserves_concat",
-            "C27_decode_encode", "C27_decode_encode_default_vocab", "C27_decode_encode_normalized", "C27_offsets_monotone_boundaries_cover",
+            "C27_decode_encode", "C27_decode_encode_default_vocab", "C27_decode_encode_normalized", "C27_offsets_monotone_boundaries_cover", "C27_oracle_sound",
             "C27_nonvacuous"]
 
 
